@@ -7,6 +7,11 @@ HERE = os.path.dirname(os.path.abspath(__file__))
 BASE = json.load(open("/root/.vp/BASELINE.json")) if os.path.exists("/root/.vp/BASELINE.json") else {}
 
 CHECKS = {
+ "C01": dict(
+  text="Lean 4 theorems over an interpreter for a core fragment (ints, bools, strings, List[int]; all arithmetic incl. // and %, comparisons, short-circuit and/or, not, len, indexing, concatenation, calls; let/mut/assignment/compound assignment, if-elif-else, while, for over range and lists, break/continue/return, append, print): `desugarS_sound` / `desugarB_sound` / `desugarElse_sound` (mutual structural induction, any shape and depth, every call oracle and fuel) — the compiler's restructuring (elif chains into nested if/else, `x op= e` into `x = x op e`, parenthesis nodes removed) preserves output, final variables, control flow and the way a run stops; `program_desugar_sound` lifts it to whole programs at every call depth; `desugarB_core` — the result uses only the core constructs; `elif_order`; the string comparison helpers are a total order with `<=`/`>=` holding on equal strings (`strRel_le`, `strRel_ge`, `strRel_refl`, `strRel_flip`, `strCmp_swap`); `compile_preserves_meaning_partial` — for programs whose emitted text rustc groups as the source does (`Safe`, computed per program) the compiled program means what the source means; the full statement is false: `grouping_lost_witness` (kernel-checked re-readings) and `only_not_regroups` / `not_regroups` on the precedence tables.",
+  note="Partial: Safe programs of the core fragment. The recorded finding (grouping lost in infix emission, pinned by the `operators` snapshot) is reproduced exactly by the re-reading model on every unsafe program; a wrong result that the model does not explain, or on a Safe program, is a violation. Rust's meaning of the core constructs is trusted and validated by running. One fix: commit recorded under C13 (user methods named like builtins were silently not called).",
+  technique="Lean 4 proof (mutual structural induction over statements/blocks/else-chains; order lemmas; finite precedence tables) + compiled-program correspondence with a re-reading model + CPython oracle",
+  ref="C01"),
  "C03": dict(
   text="Lean 4 theorems: `every_position_checked` — over function bodies of any shape and depth (mutual induction on expressions, statements and blocks) every expression position and every statement of every block is handed to the checker, given the role table that the correspondence validates role by role (kernel-checked witness `elif_was_skipped` for the table before the fix); `reassign_immutable_rejected` / `reassign_mutable_accepted` / `fresh_name_accepted` — a plain `x = value` is rejected exactly when the nearest `x` bound in this or any enclosing block of the function is immutable, at any nesting depth (witness `old_checker_missed_nested`); `omitted_variant_reported` / `complete_match_accepted` — a variant no arm names, in a match without catch-all, is reported missing, and a complete match is not. Which diagnostics each rule produces, and that they are located on the edited lines, is decided by editing real programs at every position and running the real checker.",
   note="Six fix: commits repaired gaps found by this check (elif branches, nested re-assignment, `?` outside Result functions, plain call arguments, match guards; plus the .clone() fix found under C20). Open finding: diagnostics inside compound f-string interpolations are located relative to the interpolation. Trait-adoption rules (declaration level) are not edited here.",
